@@ -923,6 +923,15 @@ pub fn header_variants(rng: &mut Rng, base: &Base, valid: &Case, mode: u64, out:
         });
         push(["mut-signed-list-drop", "mut-signed-list-add-absent", "mut-signed-list-rename"][k as usize], c);
     }
+    {
+        // x-amz-content-sha256 taken out of the request AND out of the signed list: S3 requires the header
+        let mut c = valid.clone();
+        c.headers.retain(|(n, _)| !n.eq_ignore_ascii_case(b"x-amz-content-sha256"));
+        edit_auth(&mut c, |v| {
+            replace_between(v, "SignedHeaders=", ',', |l| l.split(';').filter(|n| *n != "x-amz-content-sha256").collect::<Vec<_>>().join(";"))
+        });
+        push("mut-content-sha256-header-gone", c);
+    }
     if !base.body.is_empty() {
         let mut c = valid.clone();
         let i = rng.below(c.body.len() as u64) as usize;
